@@ -14,7 +14,8 @@ RULE = ("(i) port generator alone: 1..450 ranges (singletons, adjacent, overlapp
         "on/off, ARP cache with gateway on/off; multisets of probes and error records; non-trivial = at least 2 probes or a "
         "refused port list; distinct by case seed; (iv) end to end: the sx binary in a private network namespace (veth pair, "
         "packet socket as wire log): tcp subnet x ports with exclusion, tcp pairs file without -p, udp address file x ports, tcp "
-        "address list on stdin x 3 ports, tcp /31 x 400+ port ranges (3 chunks), arp, icmp; socks over local addresses with a listener as the log")
+        "address list on stdin x 3 ports, tcp /31 x 400+ port ranges (3 chunks), arp, icmp; socks over local addresses with a listener as the log; table-driven: every packet command (arp, icmp, udp, tcp, "
+        "tcp syn/fin/null/xmas, tcp --flags) on a /30, once normally and once pinned to ONE cpu (taskset: runtime.NumCPU() == 1)")
 
 CODES = {1: "port generator: error differs from the model", 2: "port generator: port sequence differs from the model",
          3: "port generator: channel not closed",
@@ -151,6 +152,8 @@ def judge_e2e(o):
     def show(c):
         return ["%s:%d x%d" % (T.dotted(int.from_bytes(k[:4], "big")), int.from_bytes(k[4:], "big"), n) for k, n in sorted(c.items())[:4]]
     argv = " ".join(a if len(a) < 60 else a[:57] + "..." for a in o["argv"])
+    if o.get("pin"):
+        argv = "(pinned to one CPU: taskset -c N) " + argv
     if got != want:
         return "sx %s%s: %d probes on the wire where %d are due; missing %s, not due %s (exit status %d)" % (
             argv, " < address list" if o.get("stdin") else "", sum(got.values()), sum(want.values()), show(want - got), show(got - want), o["rc"])
@@ -179,7 +182,7 @@ def report(ctx, o, why):
     if len(small.get("ranges") or []) > 12:
         small["ranges"] = small["ranges"][:12] + ["... %d ranges" % len(o["ranges"])]
     path = ctx.write_replay("%s-%d" % (o["kind"], o["case_seed"]), {
-        "property": "C01", "what": why, "input": {"kind": o["kind"], "case_seed": o["case_seed"], "big": bool(o.get("big"))},
+        "property": "C01", "what": why, "input": {"kind": o["kind"], "case_seed": o["case_seed"], "big": bool(o.get("big")), "forced": bool(o.get("forced"))},
         "observed": small, "replay_cmd": "bin/check C01 --replay <this file>"})
     key_ = "%s:%s:%s:ranges=%s" % (o["kind"], o["class"], o.get("source", ""), "many" if len(o.get("ranges") or []) > 200 else
                                    ("none" if not o.get("ranges") else "few"))
@@ -226,7 +229,7 @@ def run(ctx):
                 report(ctx, o, why)
     # end to end: the real engine start functions (chunk loop included) with a wire log
     if rows or not ctx.broken:
-        for idx, o in enumerate(run_e2e(ctx, 8 if quick else 72)):
+        for idx, o in enumerate(run_e2e(ctx, 26 if quick else 90)):
             cls = "e2e:" + o["class"]
             if o.get("skipped"):
                 ctx.skipped.append("e2e %s: %s" % (o["class"], o["skipped"][:200]))
@@ -261,6 +264,19 @@ def run(ctx):
                     "n": o["n"], "cap": o["cap"], "reqs": reqs, "harness": "c07 -seed %d -n %d -maxreq 600 -only %d" % (
                         ctx.seed + 29, 10 if quick else 100, o["case"])}})
                 ctx.findings.append({"key": "engine:" + why.split(":")[1][:40], "what": why, "replay": path})
+    if ctx.broken and not ctx.findings and any("PacketFiller" in n for n in getattr(ctx, "source_diff", [])):
+        # a packet filler changed: the commands hand ONE filler to all packet workers, so look for a frame that does not
+        # carry its own request's destination when the filler is shared by 8 goroutines (driver and oracle of C05)
+        from checks import c05
+        if ctx.harness_build("c05"):
+            for o in c05.run_harness(ctx, "filler_concurrent.jsonl", ["-seed", ctx.seed + 31, "-concurrent", 10 * c05.CONC_QUICK]):
+                why = c05.spec_on_impl(o)
+                if why:
+                    why = "one %s filler shared by the packet workers (8 goroutines): %s" % (o.get("kind"), why)
+                    path = ctx.write_replay("filler-%s" % o.get("kind"), {"property": "C01", "what": why, "case": c05.describe(o),
+                                                                         "input": {k: o[k] for k in c05.INPUT_KEYS if k in o}})
+                    ctx.findings.append({"key": "filler:" + str(o.get("kind")), "what": why, "replay": path})
+                    break
     return ctx.finish(rule=RULE)
 
 
@@ -282,7 +298,7 @@ def replay(ctx, path):
         why = judge_e2e(o)
         print("replay e2e #%d (%s): %s" % (i["index"], o["class"], why or o.get("skipped") or "property holds on this input"))
         return 1 if why else 0
-    arg = "%s:%d" % (i["kind"], i["case_seed"]) + (":big" if i.get("big") else "")
+    arg = "%s:%d" % (i["kind"], i["case_seed"]) + (":big" if i.get("big") else "") + (":filter" if i.get("forced") else "")
     ctx.harness_run("c01", ["-out", "one.jsonl", "-replay", arg], timeout=600)
     o = ctx.read_jsonl(os.path.join(ctx.work, "one.jsonl"))[0]
     why = spec_on_impl(o)
